@@ -1,5 +1,6 @@
 import Driver.BugJson
 import GitBugModel.Model.Pack
+import GitBugModel.Model.JsonStr
 /-! Driver command for C04: the JSON tree of a pack as the model says `operationPack.Write`
 stores it, to be compared with the blob the implementation wrote (parsed generically). -/
 namespace Driver.C04
@@ -26,8 +27,17 @@ def opsOfArr (l : List Json) : List Op :=
     | .noop b => .noop { b with nonce := getStr o "nonce" }
     | .setMetadata b tg nm => .setMetadata { b with nonce := getStr o "nonce" } tg nm
 
+/-- `jsonstr`: what encoding/json writes for each string, and reads from each literal -/
+def handleJsonStr (j : Json) : Json :=
+  let enc := (strArr j "strings").map fun s => String.ofList (GitBugModel.JsonStr.encode s.toList)
+  let dec := (strArr j "literals").map fun l =>
+    match GitBugModel.JsonStr.decode l.toList with
+    | some d => Json.mkObj [("ok", Json.str (String.ofList d))]
+    | none => Json.mkObj [("err", Json.bool true)]
+  Json.mkObj [("encoded", jstrs enc), ("decoded", jarr dec)]
+
 /-- `stagings`: the staging area at each `Commit` call, in order -/
-def handle (j : Json) : Json :=
+def handleStagings (j : Json) : Json :=
   let runs := (getArr j "stagings").flatMap fun st =>
     match st with
     | Json.arr a => splitRuns (opsOfArr a.toList)
@@ -37,5 +47,10 @@ def handle (j : Json) : Json :=
     Json.mkObj [("author", Json.mkObj [("id", Json.str (run.head?.map (·.base.author) |>.getD ""))]),
                 ("ops", jarr (run.map fun o => jvalJson (toJ o))),
                 ("files", jstrs (extraFiles run))])
+
+def handle (j : Json) : Json :=
+  match getStr j "cmd" with
+  | "jsonstr" => handleJsonStr j
+  | _ => handleStagings j
 
 end Driver.C04
